@@ -67,7 +67,7 @@ def run_histories(state, info, rng, n_hist, length, log):
         hist = []
         pending_partial = None   # name of an individual variable assigned since the last (partial) revert
         for step in range(length):
-            op = rng.choice(["read", "read", "put", "put_idx", "revert", "partial", "clone", "fork", "set_none"])
+            op = rng.choice(["read", "read", "put", "put_idx", "revert", "partial", "clone", "fork", "set_none", "unset_individuals"])
             try:
                 if op == "read":
                     if pending_partial:
@@ -90,7 +90,13 @@ def run_histories(state, info, rng, n_hist, length, log):
                         return violations, evals, distinct, samples
                     evals += 1
                     distinct.add((n, len(hist)))
-                    want = from_scratch(st, n)
+                    try:
+                        want = from_scratch(st, n)
+                    except LeaspyInputError:
+                        # an independent value it depends on is unset: the read had to be refused, not answered from the cache
+                        violations.append(dict(key=f"stale read of {n}: a value is returned although an independent value it depends on is unset",
+                                               history=hist[:], got=str(got)[:200]))
+                        return violations, evals, distinct, samples
                     if not same_value(got, want, exact=True):
                         violations.append(dict(key=f"stale read of {n}", history=hist[:], got=str(got)[:300], want=str(want)[:300]))
                         return violations, evals, distinct, samples
@@ -135,6 +141,11 @@ def run_histories(state, info, rng, n_hist, length, log):
                         t = rng.choice([None, StateForkType.REF, StateForkType.COPY])
                         hist.append(("fork_mode", str(t)))
                         st.auto_fork_type = t
+                elif op == "unset_individuals":
+                    # what every personalisation does when it is done: all individual latent variables un-set at once
+                    if not pending_partial and info["ind_vars"] and rng.random() < 0.5:
+                        hist.append(("put_individual_latent_variables", None))
+                        st.put_individual_latent_variables(None)
                 elif op == "set_none":
                     if not pending_partial and rng.random() < 0.3:
                         n = rng.choice(settable)
